@@ -30,6 +30,9 @@ CHECKS = {
  "C13": dict(design="3/C13", technique="property-based testing (Hypothesis) of the real MD initialisation / COM-removal / seeding code over a stub force field; differential runs for seeding (same seed with different prior RNG consumption, different seeds)",
              text="Generated zero-padded batches of bent, linear, diatomic and single-heavy-atom molecules x temperatures incl. 0 K x seeds x prior RNG consumption x remove_com modes and strides x BOMD / Langevin x optional user-supplied velocity fields (random, pure translation, pure rotation, zero, non-zero on padding). Oracles from step-0 HDF5 rows and the live molecule: exact initial temperature under the n_dof in force, zero linear (and requested angular) momentum, padding at rest, bitwise reproducibility of a seed regardless of RNG history, different seeds differ, user velocities used as given. Exploration, ~1600 cases per quick run.",
              note="Force field is an analytic stub (the property concerns initialisation code only); temperature identity uses the repository's own unit constants. Four recorded findings: user velocities passed through COM removal, diatomic + angular removal gives n_dof = 0, padding atoms acquire velocities (repair candidate under test)."),
+ "C12": dict(design="3/C12", technique="property-based testing (Hypothesis): algebraic fluctuation-dissipation identity on the real thermostat object against CODATA constants; seeded statistical tests (chi-square per element after one step from an exact Maxwell-Boltzmann sample, block-averaged long-run temperature) with >= 5-6 sigma bands; limiting-case differentials (tau -> infinity vs NVE, T = 0 dissipative)",
+             text="2000 generated (dt, tau, T, element masses, padding) tuples with dt/tau over 1e-4..10: c1 = exp(-dt/2tau), c1^2 + c2^2 m/(k_B T) = 1 per real atom to 2e-6 of (1-c1^2) (measured 4e-8, the repository's unit constant vs CODATA), no noise on padding or at T = 0. 48 seeded runs of 720 free / softly bound atoms of all element masses: Maxwell-Boltzmann at T invariant under one step (5 sigma per element) and long-run kinetic temperature equal to T (6 standard errors + 0.4 %). tau -> infinity: deviation from the NVE trajectory vanishes like tau^-1/2; T = 0: no net energy gain. Exploration.",
+             note="Statistical statements are deterministic functions of VERIF_SEED; a bias below ~1 % of T is invisible. Force field is an analytic stub. Damped XL-BOMD / KSA / surface hopping inherit the same thermostat methods and are not run separately here."),
 }
 NOT_APPLICABLE = []
 def main():
